@@ -539,9 +539,9 @@ pub fn run(cx: &mut Ctx) {
         lattice_sub(cx, "lattice-half-0..6", 2, 6);
         lattice_sub(cx, "lattice-quarter-0..3", 4, 3);
     }
-    let n = cx.n(150_000, 6_000_000);
+    let n = cx.n(400_000, 12_000_000);
     cx.prop_check("random", n, tri_case, |c, obs| check_random(c, obs));
-    let n = cx.n(20_000, 1_000_000);
+    let n = cx.n(60_000, 2_000_000);
     cx.prop_check("mesh", n, mesh_case, |c, obs| check_mesh(c, obs));
 }
 
